@@ -116,10 +116,13 @@ def structure(path, kind, page, relro=True):
     for a, b in zip(loads, loads[1:]):
         if a["vaddr"] + a["memsz"] > b["vaddr"]:
             bad.append(f"LOAD segments at {a['vaddr']:#x} and {b['vaddr']:#x} overlap or are not in ascending order")
-        if a["offset"] + a["filesz"] > b["offset"] and b["filesz"]:
-            bad.append(f"LOAD segments at {a['vaddr']:#x} and {b['vaddr']:#x} overlap in the file")
         if a["memsz"] and b["memsz"] and (a["vaddr"] + a["memsz"] - 1) // page == b["vaddr"] // page and a["flags"] != b["flags"]:
             bad.append(f"LOAD segments with different permissions share the memory page {b['vaddr'] // page * page:#x}")
+    # file extents of LOAD segments are pairwise disjoint (in whatever order they lie in the file)
+    for i, a in enumerate(loads):
+        for b in loads[i + 1:]:
+            if a["filesz"] and b["filesz"] and a["offset"] < b["offset"] + b["filesz"] and b["offset"] < a["offset"] + a["filesz"]:
+                bad.append(f"LOAD segments at {a['vaddr']:#x} and {b['vaddr']:#x} overlap in the file")
     for p in loads:
         al = p["align"]
         if al & (al - 1) or al == 0:
@@ -570,6 +573,22 @@ def run(chk, replay=None):
                 examine(d + "/out", "static", 0x1000, {"name": "script-text-inside-headers", "seeds": [], "opts": ["-T", "SECTIONS { .text 0x400123 : { *(.text .text.*) } }"]}, True)
             else:
                 stats["rejected"] += 1
+        # corpus: sections placed BELOW what was laid out before them (the location counter moves backwards): the LOAD
+        # segments must still be disjoint, in ascending address order, and cover their sections
+        if not replay or str(json.load(open(replay))["replay"].get("name", "")).startswith("backwards"):
+            open(d + "/b.s", "w").write(".text\n.globl _start\n_start: lea dat(%rip),%rax\n ret\n.data\ndat: .quad 7\n.section .foo,\"aw\",@progbits\nfoo: .quad dat\n.bss\n.lcomm buf,64\n")
+            open(d + "/b.ld", "w").write("SECTIONS { .text 0x600000 : { *(.text .text.*) } .rodata : { *(.rodata*) } .data 0x200000 : { *(.data .data.* .foo) } .bss : { *(.bss*) } }\n")
+            sh(f"cd {d} && as --64 b.s -o b.o", timeout=60)
+            for bname, bargs in (("backwards-section-start-foo", ["--section-start=.foo=0x100000"]), ("backwards-section-start-data", ["--section-start=.data=0x200000"]),
+                                 ("backwards-section-start-text", ["--section-start=.text=0x100000"]), ("backwards-script", ["-T", "b.ld"]),
+                                 ("backwards-two", ["--section-start=.foo=0x300000", "--section-start=.data=0x100000"])):
+                rc, out = sh(f"cd {d} && rm -f out trace && WILD_VERIF_LAYOUT={d}/trace timeout 60 {wild} b.o {' '.join(bargs)} -o out", timeout=90)
+                stats["links"] += 1
+                if rc == 0:
+                    stats["backwards"] = stats.get("backwards", 0) + 1
+                    examine(d + "/out", "static", 0x1000, {"name": bname, "seeds": [], "opts": bargs}, True)
+                else:
+                    stats["rejected"] += 1
         # a shared library for the dynamic kinds
         open(d + "/ext.s", "w").write(".globl extfn\n.type extfn,@function\nextfn: ret\n.data\n.globl extvar\n.type extvar,@object\n.size extvar,8\nextvar: .quad 1\n")
         rc, out = sh(f"cd {d} && as --64 ext.s -o ext.o && {wild} -shared ext.o -o libext.so", timeout=60)
